@@ -1,5 +1,19 @@
 /-
   C05 — stabilizer state comparison and fidelity are exact.
+
+  Contents (every theorem for every n; nothing conditional since `C11.inverse_circuit_complete`):
+  * canonical form / equality   `canonical_form_preserves_state`, `canonical_form_returns_canon`, `canon_shape_unique`,
+                                `canonical_form_is_normal_form`, `canonical_form_returns_iff_independent`,
+                                `canonical_form_idempotent`, `canonical_form_depends_only_on_state`, `equality_sound`, `equality_exact`, `equality_is_equivalence`,
+                                `sign_matters`, `shape_checker_sound`
+  * fidelity, group level       `inner_product_zero_iff`, `inner_product_exponent`, `inner_product_exponent_counts`,
+                                `overlap_dim_unique`, `fidelity_self`, `fidelity_self_returns`, `fidelity_one_iff`,
+                                `fidelity_symmetric`, `fidelity_presentation_independent`, `fidelity_circuit_invariant`,
+                                `fidelity_value_set`, `inner_product_returns`, `inner_product_returns_only_if`
+  * fidelity, Hilbert space     `fidelity_is_state_overlap`, `fidelity_is_squared_inner_product`,
+                                `fidelity_on_valid_tableaux`, `mixture_fidelity_is_state_overlap`,
+                                `same_density_matrix_iff_same_group`, `same_state_iff_same_group`
+  * executable specification    `overlap_spec_checker_exact`, `overlap_spec_count_exact`
 -/
 import GraphiqModel.Proofs.InverseCircuit
 import GraphiqModel.Proofs.CanonUnique
@@ -11,6 +25,8 @@ import GraphiqModel.Proofs.InnerProductHilbert
 import GraphiqModel.Proofs.InvHilbert
 import GraphiqModel.Proofs.InvValid
 import GraphiqModel.Proofs.InnerProductCount
+import GraphiqModel.Proofs.InvClifford
+import GraphiqModel.Proofs.InvGauge
 namespace Graphiq.C05
 open Graphiq Graphiq.PRow Graphiq.STab Graphiq.Tab
 
@@ -136,6 +152,15 @@ theorem canonical_form_is_normal_form : canonical_form_is_normal_form_statement 
   have s : SpanEq ca cb := (s1.symm.trans ⟨hs.1, fun p => (hs.2 p).1, fun p => (hs.2 p).2⟩).trans s2
   exact canon_shape_unique ca cb (canonicalForm_canon a ca h1) (canonicalForm_canon b cb h2) g1 g2
     ⟨s.n_eq, fun p => ⟨s.sub p, s.sup p⟩⟩
+
+/-- **The canonical form depends only on the state — as a value** (every n ≥ 1): two real commuting generating sets of the
+    same signed group get *equal* canonical forms (not only row-wise equal below the size: `canonical_form` returns a
+    tabulated tableau), so everything computed from the canonical form alone — `Stabilizer.__eq__`, `inverse_circuit`,
+    `fidelity` — is a function of the state. -/
+theorem canonical_form_depends_only_on_state (a b ca cb : STab) (ga : a.Good) (gb : b.Good)
+    (hs : a.n = b.n ∧ ∀ p, a.Spn p ↔ b.Spn p) (ha : a.canonicalForm = .ok ca) (hb : b.canonicalForm = .ok cb)
+    (hn : 0 < a.n) : ca = cb :=
+  canonicalForm_eq_of_spanEq a b ca cb ga gb ⟨hs.1, fun p => (hs.2 p).1, fun p => (hs.2 p).2⟩ ha hb hn
 
 /-- **State equality is exact** (every n): for real commuting generating sets on which `canonical_form` returns, the
     canonical forms coincide row by row *iff* the two sets generate the same signed group (soundness `equality_sound` +
@@ -360,6 +385,120 @@ theorem overlap_spec_count_exact (a b : STab) (ga : a.Good) (gb : b.Good) (ia : 
     (h : OverlapDim a b d) : a.commonCount b = 2 ^ d :=
   commonCount_eq a b ga gb ia hn d h
 
+/-! ### Further consequences -/
+
+/-- **`canonical_form` is idempotent** (every n): on its own result it returns, and returns the same rows. -/
+theorem canonical_form_idempotent (t c : STab) (hg : t.Good) (h : t.canonicalForm = .ok c) :
+    ∃ c', c.canonicalForm = .ok c' ∧ SameRows c' c := by
+  obtain ⟨s, gc⟩ := canonicalForm_spanEq t c hg h
+  have it : t.Indep := (canonicalForm_returns_iff t hg).1 ⟨c, h⟩
+  -- `c` is independent as well: it generates the same group, so `canonical_form` returns on it
+  have ic : c.Indep := by
+    obtain ⟨k, px, pz, hx, hz⟩ := canonicalForm_canon t c h
+    intro S hS i hi
+    exact canon_rows_indep c k px pz hx hz S (by
+      have hb : SameBits c.n (sprod c.n c.row S c.n) PRow.one := by
+        intro j hj; rw [sprod_x, sprod_z]; exact hS j hj
+      have hsp := sprod_spn c S c.n (Nat.le_refl _)
+      have := canon_trivial c k px pz hx hz gc _ hsp (fun i hi => (hb _ (hx.piv_lt i (Nat.zero_le _) hi)).1)
+        (fun i h1 h2 => (hb _ (hz.piv_lt i h1 h2)).2)
+      exact this) i hi
+  obtain ⟨c', hc'⟩ := canonicalForm_of_indep c gc ic
+  refine ⟨c', hc', ?_⟩
+  exact canonical_form_is_normal_form c t c' c gc hg ⟨s.n_eq.symm, fun p => ⟨s.sup p, s.sub p⟩⟩ hc' h
+
+/-- **State equality via canonical forms is an equivalence relation** on generating sets on which `canonical_form` returns -/
+theorem equality_is_equivalence (a b c ca cb cc : STab) (ga : a.Good) (gb : b.Good) (gc : c.Good)
+    (ha : a.canonicalForm = .ok ca) (hb : b.canonicalForm = .ok cb) (hc : c.canonicalForm = .ok cc) :
+    SameRows ca ca ∧ (SameRows ca cb → SameRows cb ca) ∧ (SameRows ca cb → SameRows cb cc → SameRows ca cc) := by
+  refine ⟨⟨rfl, fun i _ => EqOn.refl _ _⟩, fun h => ?_, fun h1 h2 => ?_⟩
+  · have := (equality_exact a b ca cb ga gb ha hb).1 h
+    exact (equality_exact b a cb ca gb ga hb ha).2 ⟨this.1.symm, fun p => (this.2 p).symm⟩
+  · have e1 := (equality_exact a b ca cb ga gb ha hb).1 h1
+    have e2 := (equality_exact b c cb cc gb gc hb hc).1 h2
+    exact (equality_exact a c ca cc ga gc ha hc).2 ⟨e1.1.trans e2.1, fun p => (e1.2 p).trans (e2.2 p)⟩
+
+/-- **The fidelity takes values in `{0} ∪ {2^{-e} : e ≤ n}`**, is at most 1, and is 1 only for `e = 0` -/
+theorem fidelity_value_set (a b : Tab) (r : Option Nat) (ga : (STab.ofTab a).Good) (gb : (STab.ofTab b).Good)
+    (h : STab.innerProduct a b = .ok r) : r = none ∨ ∃ e, r = some e ∧ e ≤ a.n := by
+  cases hr : r with
+  | none => left; rfl
+  | some e =>
+    right
+    rw [hr] at h
+    exact ⟨e, rfl, (inner_product_exponent a b e ga gb h).1⟩
+
+
+theorem half_pow_eq_one (e : Nat) (h : (1 / 2 : ℂ) ^ e = 1) : e = 0 := by
+  cases e with
+  | zero => rfl
+  | succ k =>
+    exfalso
+    have h2 : (2 : ℂ) ^ (k + 1) = 1 := by
+      have : (1 / 2 : ℂ) ^ (k + 1) * (2 : ℂ) ^ (k + 1) = 1 := by
+        rw [← mul_pow]; norm_num
+      rw [h, _root_.one_mul] at this
+      exact this
+    have h3 : ((2 ^ (k + 1) : ℕ) : ℂ) = ((1 : ℕ) : ℂ) := by push_cast; exact h2
+    have h4 : 2 ^ (k + 1) = 1 := Nat.cast_injective h3
+    have : 2 ^ (k + 1) ≥ 2 := by
+      calc 2 ^ (k + 1) = 2 ^ k * 2 := pow_succ 2 k
+        _ ≥ 1 * 2 := Nat.mul_le_mul_right 2 (Nat.one_le_two_pow)
+    omega
+
+/-- **Two valid tableaux describe the same density matrix iff their stabilizer halves generate the same signed group**
+    (every n): the group-level semantics used throughout (C01, C02, C07, C08, C11) is *faithful* — equality of signed groups
+    is exactly equality of states. -/
+theorem same_density_matrix_iff_same_group (a b : Tab) (va : a.Valid) (vb : b.Valid) (hn : a.n = b.n) :
+    Hilbert.rho a.n (STab.ofTab a) = Hilbert.rho a.n (STab.ofTab b) ↔
+      ((STab.ofTab a).n = (STab.ofTab b).n ∧ ∀ p, (STab.ofTab a).Spn p ↔ (STab.ofTab b).Spn p) := by
+  have ga := ofTab_good_of_valid a va
+  have gb := ofTab_good_of_valid b vb
+  constructor
+  · intro h
+    obtain ⟨r, hr⟩ := inner_product_returns a b ga gb (ofTab_indep a va) (ofTab_indep b vb) hn
+    have ht := fidelity_is_state_overlap a b r ga gb hr
+    have hid : Hilbert.rho a.n (STab.ofTab a) * Hilbert.rho a.n (STab.ofTab a) = Hilbert.rho a.n (STab.ofTab a) :=
+      Hilbert.rho_idem _ ga
+    rw [← h, hid, Hilbert.rho_ofTab_trace a va] at ht
+    have hr0 : r = some 0 := by
+      cases hr' : r with
+      | none => rw [hr'] at ht; simp [Hilbert.ipVal] at ht
+      | some e =>
+        rw [hr'] at ht
+        have : e = 0 := half_pow_eq_one e (by simpa [Hilbert.ipVal] using ht.symm)
+        rw [this]
+    exact (fidelity_one_iff a b r ga gb hr).1 hr0
+  · intro h
+    exact Hilbert.rho_spanEq _ _ ⟨h.1, fun p => (h.2 p).1, fun p => (h.2 p).2⟩ ga gb
+
+
+/-- **… and the same for stabilizer tableaux** (`n` independent real commuting generators each): equal density matrices iff
+    equal signed groups. -/
+theorem same_state_iff_same_group (t t' : STab) (g : t.Good) (g' : t'.Good) (i : t.Indep) (i' : t'.Indep) (hn : t.n = t'.n) :
+    Hilbert.rho t.n t = Hilbert.rho t.n t' ↔ (t.n = t'.n ∧ ∀ p, t.Spn p ↔ t'.Spn p) := by
+  obtain ⟨T, _, n1, v1, _, s1⟩ := cliffordFromStabilizer_complete t g i
+  obtain ⟨T', _, n2, v2, _, s2⟩ := cliffordFromStabilizer_complete t' g' i'
+  have e1 : Hilbert.rho t.n (STab.ofTab T) = Hilbert.rho t.n t := by
+    have := Hilbert.rho_spanEq (STab.ofTab T) t s1 (Hilbert.ofTab_good T v1) g
+    have e : (STab.ofTab T).n = t.n := n1
+    rw [e] at this; exact this
+  have e2 : Hilbert.rho t.n (STab.ofTab T') = Hilbert.rho t.n t' := by
+    have := Hilbert.rho_spanEq (STab.ofTab T') t' s2 (Hilbert.ofTab_good T' v2) g'
+    have e : (STab.ofTab T').n = t.n := n2.trans hn.symm
+    rw [e] at this; exact this
+  have key := same_density_matrix_iff_same_group T T' v1 v2 (n1.trans (hn.trans n2.symm))
+  rw [n1, e1, e2] at key
+  rw [key]
+  constructor
+  · intro h
+    have s : SpanEq t t' := (s1.symm.trans ⟨h.1, fun p => (h.2 p).1, fun p => (h.2 p).2⟩).trans s2
+    exact ⟨s.n_eq, fun p => ⟨s.sub p, s.sup p⟩⟩
+  · intro h
+    have s : SpanEq (STab.ofTab T) (STab.ofTab T') := (s1.trans ⟨h.1, fun p => (h.2 p).1, fun p => (h.2 p).2⟩).trans s2.symm
+    exact ⟨s.n_eq, fun p => ⟨s.sub p, s.sup p⟩⟩
+
+
 /-! ### Non-vacuity -/
 def bellMinus : STab :=   -- generators −XX, ZZ in the gauge (−XX·ZZ = YY, ZZ):  YY, ZZ
   STab.ofRows 2 #[
@@ -563,6 +702,46 @@ example : ∃ r r', (STab.ofTab bellMinusTab).Good ∧ (STab.ofTab bellMinusYYTa
   have h2 : STab.innerProduct bellMinusYYTab ket00Tab = .ok (some 1) := ok_of_check _ _ (by decide +kernel)
   exact ⟨_, _, g1, g2, s, h1, h2,
     fidelity_presentation_independent _ _ _ _ _ _ g1 g3 g2 g3 s (SpanEq.refl _) h1 h2⟩
+
+/-- **The fidelity is invariant under applying the same Clifford circuit to both states** (every n, every well-formed gate
+    list `c` of `run_circuit`): `fidelity(c·a, c·b) = fidelity(a, b)`. -/
+theorem fidelity_circuit_invariant (a b : Tab) (c : List Gate) (hc : ∀ g, g ∈ c → g.WF a.n) (hn : b.n = a.n)
+    (ga : (STab.ofTab a).Good) (gb : (STab.ofTab b).Good) (r r' : Option Nat)
+    (h : STab.innerProduct a b = .ok r) (h' : STab.innerProduct (a.runCircuit c) (b.runCircuit c) = .ok r') : r = r' :=
+  innerProduct_circuit_invariant a b c hc hn ga gb r r' h h'
+
+/-- the hypotheses of `fidelity_circuit_invariant` are met by Φ⁺, |00⟩ and the list `H₀, CNOT₀₁, P₁`; both calls return
+    the same value, as the theorem says -/
+example : (∀ g, g ∈ [Gate.H 0, Gate.CNOT 0 1, Gate.P 1] → g.WF bellPlusTab.n) ∧
+    STab.innerProduct bellPlusTab ket00Tab = .ok (some 1) ∧
+    STab.innerProduct (bellPlusTab.runCircuit [Gate.H 0, Gate.CNOT 0 1, Gate.P 1])
+      (ket00Tab.runCircuit [Gate.H 0, Gate.CNOT 0 1, Gate.P 1]) = .ok (some 1) := by
+  refine ⟨?_, ok_of_check _ _ (by decide +kernel), ok_of_check _ _ (by decide +kernel)⟩
+  intro g hg
+  simp only [List.mem_cons, List.mem_nil_iff, or_false] at hg
+  rcases hg with rfl | rfl | rfl
+  · show 0 < 2; decide
+  · show 0 < 2 ∧ 1 < 2 ∧ 0 ≠ 1; decide
+  · show 1 < 2; decide
+
+/-- **Infidelity of a branched mixed stabilizer state against a pure target** (`graphiq.metrics.Infidelity.evaluate`, every n,
+    every finite mixture): the fidelity it forms, `Σ_i p_i · fidelity(T_t, T_i)`, is the overlap `tr(ρ_t · Σ_i p_i ρ_i)` of the
+    target with the mixed density matrix (entries of the list: weight `p_i`, tableau `T_i`, and the value `r_i` reported by
+    `inner_product(T_t, T_i)`). -/
+theorem mixture_fidelity_is_state_overlap (a : Tab) (ga : (STab.ofTab a).Good) (l : List (ℂ × Tab × Option Nat))
+    (h : ∀ x, x ∈ l → (STab.ofTab x.2.1).Good ∧ STab.innerProduct a x.2.1 = .ok x.2.2) :
+    Matrix.trace (Hilbert.rho a.n (STab.ofTab a) * (l.map fun x => x.1 • Hilbert.rho a.n (STab.ofTab x.2.1)).sum)
+      = (l.map fun x => x.1 * Hilbert.ipVal x.2.2).sum :=
+  Hilbert.mixture_trace a ga l h
+
+/-- the hypothesis is met by the mixture {¼: Φ⁻, ¾: |00⟩} against the target Φ⁺ -/
+example : ∀ x, x ∈ [((1 / 4 : ℂ), bellMinusTab, (none : Option Nat)), ((3 / 4 : ℂ), ket00Tab, some 1)] →
+    (STab.ofTab x.2.1).Good ∧ STab.innerProduct bellPlusTab x.2.1 = .ok x.2.2 := by
+  intro x hx
+  simp only [List.mem_cons, List.mem_nil_iff, or_false] at hx
+  rcases hx with rfl | rfl
+  · exact ⟨good_of_check _ (by decide), ok_of_check _ _ (by decide +kernel)⟩
+  · exact ⟨good_of_check _ (by decide), ok_of_check _ _ (by decide +kernel)⟩
 
 /-- the witness of the repaired defect D42 (`C11.d42`: −XIYXI, −IXXZZ, IIZZX, −ZIIZI, IZZZI) as a Clifford tableau
     (the destabilizer half is not read by `inner_product` on its first argument) -/
